@@ -164,9 +164,36 @@ HARNESS_FILES = {
 }
 
 
+_TO_REMOVE = []
+
+
+def _cleanup_at_exit(path):
+    import atexit
+    if not _TO_REMOVE:
+        def _rm():
+            for q in _TO_REMOVE:
+                try: os.remove(q)
+                except OSError: pass
+        atexit.register(_rm)
+    _TO_REMOVE.append(path)
+
+
+def _sweep_stale_binaries():
+    """binaries left by checks that were killed: <name>.<pid> whose process is gone"""
+    try:
+        for f in os.listdir(BIN):
+            m = re.match(r".*\.(\d+)$", f)
+            if m and not os.path.exists("/proc/" + m.group(1)):
+                try: os.remove(os.path.join(BIN, f))
+                except OSError: pass
+    except OSError:
+        pass
+
+
 def build_harness(area, extra_overlay=None):
     """compile /verif/go/harness/<area> INTO the blackdagger module (overlay), from /repo's current tree"""
     with Lock("harness-" + area):
+        _sweep_stale_binaries()
         repl = {}
         hdir = os.path.join(ROOT, "go", "harness", area)
         for f in sorted(os.listdir(hdir)):
@@ -184,18 +211,22 @@ def build_harness(area, extra_overlay=None):
                    cwd=REPO, env=GOENV, timeout=1200)
         if rc != 0:
             return None, o
-        final = os.path.join(BIN, area)
+        # the binary is private to this process (another check may be running against another tree)
+        final = os.path.join(BIN, "%s.%d" % (area, os.getpid()))
         os.replace(out, final)
+        _cleanup_at_exit(final)
         return final, o
 
 
 def build_real_binary():
     with Lock("realbin"):
-        out = os.path.join(BIN, "blackdagger")
+        os.makedirs(BIN, exist_ok=True)
+        out = os.path.join(BIN, "blackdagger.%d" % os.getpid())
         rc, o = sh(["go", "build", "-o", out + ".new", "."], cwd=REPO, env=GOENV, timeout=1200)
         if rc != 0:
             return None, o
         os.replace(out + ".new", out)
+        _cleanup_at_exit(out)
         return out, o
 
 
@@ -327,6 +358,12 @@ def lean_obligations(chk, props_rel, tie=None, extra_targets=None):
        props_rel : e.g. 'BdModel/Props/C14.lean' (ends with #print axioms lines)
        tie       : {Area: [names of tie theorems this property depends on]}"""
     tie = tie or {}
+    # one check at a time between the extraction from ITS tree and the elaboration of the ties against it
+    with Lock("lean-phase"):
+        return _lean_obligations(chk, props_rel, tie, extra_targets)
+
+
+def _lean_obligations(chk, props_rel, tie, extra_targets):
     try:
         ex = run_extract()
     except Exception as e:
